@@ -7,6 +7,7 @@ import re
 import subprocess
 import time
 
+import config
 import extract
 import rustscan as R
 
@@ -163,11 +164,23 @@ def run_unit(unit_path, repo, verif, workdir, threads=8, twin=True, log=None):
         if mt.group(0).startswith('#[verifier::external_body]'):
             # the function name is on one of the next lines
             nxt = text[mt.end():mt.end() + 300]
-            m2 = re.search(r'fn\s+(\w+)', nxt)
-            ctx = 'external_body (assumed contract): ' + (m2.group(1) if m2 else '?')
+            m2 = re.search(r'\b(fn|struct)\s+(\w+)', nxt)
+            if m2 and m2.group(1) == 'struct':
+                ctx = 'external type (abstract stand-in): ' + m2.group(2)
+            else:
+                nm = m2.group(2) if m2 else '?'
+                where = config.PROVED_IN.get(nm)
+                ctx = 'external_body (contract assumed in this unit%s): %s' % ((', discharged by ' + where) if where else ', NOT proved anywhere', nm)
         elif mt.group(0).startswith('assume_specification'):
-            m2 = re.search(r'\[\s*([^\]]+?)\s*\]', text[mt.start():mt.start() + 300])
-            ctx = 'assume_specification: ' + (m2.group(1) if m2 else ctx)
+            seg = text[mt.start():mt.start() + 400]
+            name = ctx
+            try:
+                o = seg.index('[', seg.index('>') if seg[len('assume_specification'):].lstrip().startswith('<') else 0)
+                msk = R.code_mask(seg)
+                name = ' '.join(seg[o + 1:R.match_close(seg, msk, o)].split())
+            except Exception:
+                pass
+            ctx = 'assume_specification (std/dependency behaviour assumed): ' + name
         elif mt.group(1) in ('assume', 'admit'):
             ctx = 'ASSUME/ADMIT: ' + ctx
         res.trusted.append(ctx)
